@@ -259,8 +259,23 @@ fn eval_stmt(
             let iter_val = eval_expr(context, scopes, iter)
                     .context(EvalForIterFailed)?;
 
-            let pairs = value_to_pairs(&iter_val.v)
-                    .context(ConvertForIterToPairsFailed)?;
+            let pairs =
+                match value_to_pairs(&iter_val.v) {
+                    Ok(pairs) => pairs,
+                    Err(source) => {
+                        let (_, (line, col)) = iter;
+
+                        return Err(Error::AtLoc{
+                            source: Box::new(
+                                Error::ConvertForIterToPairsFailed{
+                                    source: Box::new(source),
+                                },
+                            ),
+                            line: *line,
+                            col: *col,
+                        });
+                    },
+                };
 
             for (key, value) in pairs {
                 let pair = value::new_list(vec![key, value]);
@@ -1487,10 +1502,18 @@ fn eval_call(
                 match v {
                     Escape::None =>
                         value::new_null(),
-                    Escape::Break{..} =>
-                        return Err(Error::BreakOutsideLoop),
-                    Escape::Continue{..} =>
-                        return Err(Error::ContinueOutsideLoop),
+                    Escape::Break{loc: (line, col)} =>
+                        return Err(Error::AtLoc{
+                            source: Box::new(Error::BreakOutsideLoop),
+                            line,
+                            col,
+                        }),
+                    Escape::Continue{loc: (line, col)} =>
+                        return Err(Error::AtLoc{
+                            source: Box::new(Error::ContinueOutsideLoop),
+                            line,
+                            col,
+                        }),
                     Escape::Return{value, ..} =>
                         value,
                 }
